@@ -101,8 +101,12 @@ def gen_case(rng, tier, k):
         ops2 = gen_ops(rng, rng.randint(1, 6), allow_unmodelled=False)
     queries = [[rng.randrange(64), rng.choice(["exact", "exact", "flip", "drop", "add", "unknown"]), rng.randrange(64)]
                for _ in range(4)]
+    summary = rng.random() < 0.5
+    if summary and rng.random() < 0.6:
+        # build() on networks where an input switches the logic of a module (sibling nodes with equal block variables)
+        bnet = common.g_modulated(rng, focus=rng.random() < 0.7)
     return {"bnet": bnet, "max_motifs": 100000, "ops": ops1, "ops2": ops2, "queries": queries,
-            "summary": rng.random() < 0.5}
+            "summary": summary}
 
 
 def run_hist(case, ops):
